@@ -12,6 +12,9 @@ go build -o /dev/null github.com/elastic/go-seccomp-bpf/cmd/sandbox github.com/e
 go build -o /dev/null ./cmd/hello ./cmd/archprobe 2>/dev/null
 GOARCH=386 go build -o /dev/null ./cmd/hello 2>/dev/null
 go build -tags verif -o /dev/null ./cmd/progprobe 2>/dev/null; GOARCH=386 go build -tags verif -o /dev/null ./cmd/progprobe 2>/dev/null
+go build -o /dev/null ./cmd/sysuser ./cmd/stubnative 2>/dev/null; GOARCH=386 go build -o /dev/null ./cmd/sysuser 2>/dev/null
+GOOS=js GOARCH=wasm go build -o /dev/null ./cmd/stubprobe 2>/dev/null
+(cd /repo/arch && go build -o /dev/null mk_syscalls_linux.go 2>/dev/null)
 # race-enabled build (C13's free-running pass)
 CGO_ENABLED=1 go build -race -tags verif -o /dev/null ./cmd/vcheck 2>/dev/null
 # standard library for every target of the distribution list (C19)
